@@ -282,6 +282,7 @@ def run(ctx):
         rs += [random_script(rng, "stream", 20000) for _ in range(4)]
     if not all(inside_history(sc) for sc in rs):
         raise vlib.Infra("a random history meant to stay inside the 8192-number history leaves it (generator bug)")
+    rs = [vlib.remap_ids(sc, rng.choice(vlib.SSRC_TABLES)) for sc in rs]
     evs = run_batch(ctx, rs, "T-random")
     if evs is not None and not ctx.violations:
         top = max([b["tot"] for e in evs if e["a"] == "report" for b in e["out"]] or [0])
